@@ -40,10 +40,30 @@ def pnames(params):
     out=[]
     for p in params.split(','):
         p=p.strip()
-        n,t=p.split(' ',1)
+        n,t=(p.split(' ',1)+[''])[:2]
         out.append(n+('...' if t.startswith('...') else ''))
     return ', '.join(out)
-def gen(pkg, table, path):
+INLINE = {'ByteDocToMap'}
+RC = "r := len(recast) == 1 && recast[0]; "
+GA = "a := len(getAttrs) == 1 && getAttrs[0]; "
+W = [
+ ("DocToJson","doc string, recast ...bool","string, error",RC+'m, err := mxj.NewMapXml([]byte(doc), r); if m == nil || err != nil { return "", err }; b, berr := m.Json(); if berr != nil { return "", berr }; return string(b), nil'),
+ ("DocToJsonIndent","doc string, recast ...bool","string, error",RC+'m, err := mxj.NewMapXml([]byte(doc), r); if m == nil || err != nil { return "", err }; b, berr := m.JsonIndent("", "  "); if berr != nil { return "", berr }; return string(b), nil'),
+ ("DocToMap","doc string, recast ...bool","map[string]interface{}, error",RC+"m, err := mxj.NewMapXml([]byte(doc), r); return map[string]interface{}(m), err"),
+ ("ByteDocToJson","doc []byte, recast ...bool","string, error",RC+'m, err := mxj.NewMapXml(doc, r); if m == nil || err != nil { return "", err }; b, berr := m.Json(); if berr != nil { return "", berr }; return string(b), nil'),
+ ("ByteDocToMap","doc []byte, recast ...bool","map[string]interface{}, error",RC+"m, err := mxj.NewMapXml(doc, r); return map[string]interface{}(m), err"),
+ ("ToMap","rdr io.Reader, recast ...bool","map[string]interface{}, error",RC+"m, err := mxj.NewMapXmlReader(rdr, r); return map[string]interface{}(m), err"),
+ ("ValuesForTag","doc, tag string","[]interface{}, error","m, err := mxj.NewMapXml([]byte(doc)); if err != nil { return nil, err }; return ValuesForKey(m, tag), nil"),
+ ("PathsForTag","doc string, key string","[]string, error","m, err := mxj.NewMapXml([]byte(doc)); if err != nil { return nil, err }; return PathsForKey(m, key), nil"),
+ ("PathForTagShortest","doc string, key string","string, error",'m, err := mxj.NewMapXml([]byte(doc)); if err != nil { return "", err }; return PathForKeyShortest(m, key), nil'),
+ ("BytePathsForTag","doc []byte, key string","[]string, error","m, err := mxj.NewMapXml(doc); if err != nil { return nil, err }; return PathsForKey(m, key), nil"),
+ ("BytePathForTagShortest","doc []byte, key string","string, error",'m, err := mxj.NewMapXml(doc, false); if err != nil { return "", err }; return PathForKeyShortest(m, key), nil'),
+ ("ValuesFromTagPath","doc, path string, getAttrs ...bool","[]interface{}, error",GA+"m, err := mxj.NewMapXml([]byte(doc)); if err != nil { return nil, err }; return ValuesFromKeyPath(m, path, a), nil"),
+ ("ValuesAtTagPath","doc, path string, getAttrs ...bool","[]interface{}, error",GA+"m, err := mxj.NewMapXml([]byte(doc)); if err != nil { return nil, err }; return ValuesAtKeyPath(m, path, a), nil"),
+ ("ReaderValuesFromTagPath","rdr io.Reader, path string, getAttrs ...bool","[]interface{}, error",GA+"m, err := mxj.NewMapXmlReader(rdr); if err != nil { return nil, err }; return ValuesFromKeyPath(m, path, a), nil"),
+ ("ReaderValuesForTag","rdr io.Reader, tag string","[]interface{}, error","m, err := mxj.NewMapXmlReader(rdr); if err != nil { return nil, err }; return ValuesForKey(m, tag), nil"),
+]
+def gen(pkg, table, path, imp='. "github.com/clbanning/mxj/v2"', extra_spec='', extra_con=''):
     spec=[f'''//go:build verif
 // +build verif
 
@@ -53,7 +73,7 @@ def gen(pkg, table, path):
 package {pkg}
 
 import (
-	. "github.com/clbanning/mxj/v2"
+	{imp}
 	"io"
 	"reflect"
 )
@@ -81,7 +101,11 @@ package {pkg}
             spec.append(f"func spec{name}_{k}({params}) {rt} {{ {vars_} := spec{name}({pnames(params)}); return r }}\n")
             olds.append(f"//@   old want{k} = spec{name}_{k}({pnames(params)})")
             ens.append(f"//@   ensures verifSame({rn}, want{k})")
-        con.append(f"//@ func {name}\n//@   property C20\n"+"\n".join(olds)+"\n"+"\n".join(ens)+"\n//@   modifies all\n")
+        con.append(f"//@ func {name}\n//@   property C20\n"+("//@   inline\n" if name in INLINE else "")+"\n".join(olds)+"\n"+"\n".join(ens)+"\n//@   modifies all\n")
+    spec.append(extra_spec); con.append(extra_con)
     open(path+'/verif_spec.go','w').write('\n'.join(spec))
     open(path+'/verif_contracts.go','w').write('\n'.join(con))
+import os
+HERE=os.path.dirname(os.path.abspath(__file__))
 gen('j2x',J,'/repo/j2x'); gen('x2j',X,'/repo/x2j')
+gen('x2j',W,'/repo/x2j-wrapper','"github.com/clbanning/mxj/v2"',open(HERE+'/x2jw_spec.go.txt').read(),open(HERE+'/x2jw_contracts.txt').read())
